@@ -59,6 +59,9 @@ func allTags(c *Contract) []string {
 	for _, nr := range c.NoReads {
 		add(nr.Tags)
 	}
+	if c.MapInv != nil {
+		add(c.MapInv.Tags)
+	}
 	for _, cl := range c.Requires {
 		add(cl.Tags)
 	}
